@@ -41,8 +41,39 @@ func fail(n ast.Node, format string, args ...any) {
 		pos = fset.Position(n.Pos()).String() + ": "
 	}
 
+	if inGuard && softGuard {
+		panic(guardFailure(pos + fmt.Sprintf(format, args...)))
+	}
+
 	fmt.Fprintf(os.Stderr, "authn extractor: %s%s\n", pos, fmt.Sprintf(format, args...))
 	os.Exit(3)
+}
+
+// -soft-guard: when only the shape of compositeSubjectCreator.Execute is not understood, the extraction does not fail
+// as a whole: `compositeGuard` is then not an extracted fact (the output says so in a marker line) and the check has to
+// establish the composite's condition otherwise - by the theorem about the translated function, c04_src_composite.
+type guardFailure string
+
+var softGuard, inGuard bool
+
+func compositeOrFallback(path string) (text string) {
+	inGuard = true
+
+	defer func() {
+		inGuard = false
+
+		if r := recover(); r != nil {
+			msg, ok := r.(guardFailure)
+			if !ok {
+				panic(r)
+			}
+
+			text = "Heimdall.Authn.compositeGuard\n-- compositeGuard: NOT EXTRACTED (" +
+				strings.ReplaceAll(string(msg), "\n", " ") + ")"
+		}
+	}()
+
+	return composite(path)
 }
 
 var kinds = map[string]string{
@@ -1055,8 +1086,13 @@ func algorithms(path string) []string {
 }
 
 func main() {
+	if len(os.Args) == 3 && os.Args[1] == "-soft-guard" {
+		softGuard = true
+		os.Args = []string{os.Args[0], os.Args[2]}
+	}
+
 	if len(os.Args) != 2 {
-		fail(nil, "usage: authn <repository root>")
+		fail(nil, "usage: authn [-soft-guard] <repository root>")
 	}
 
 	root := os.Args[1]
@@ -1147,7 +1183,7 @@ func main() {
 	fmt.Fprintf(&out, "/-- `compositeSubjectCreator.Execute` (`internal/rules/composite_subject_creator.go`): one loop over the\n"+
 		"authenticators in order, the first success is returned, a failure leads to the next authenticator under this\n"+
 		"condition and ends the loop otherwise, the last error is returned -/\n")
-	fmt.Fprintf(&out, "def compositeGuard : Guard :=\n  %s\n\n", composite(filepath.Join(root, "internal/rules/composite_subject_creator.go")))
+	fmt.Fprintf(&out, "def compositeGuard : Guard :=\n  %s\n\n", compositeOrFallback(filepath.Join(root, "internal/rules/composite_subject_creator.go")))
 	out.WriteString("end Heimdall.Authn.Gen\n")
 
 	fmt.Print(out.String())
